@@ -9,6 +9,7 @@ import Mappy.Gen.Props
 import Mappy.Model.Versioning
 import Mappy.Gen.Schemas
 import Mappy.Model.Transformer
+import Mappy.Model.Validator
 open Lean Mappy Mappy.Wire
 
 namespace Mappy.Driver
@@ -203,6 +204,28 @@ def transformOp (req : Json) : Except String Json := do
     | some v => pure (Json.mkObj [("ok", ofJ v), ("shape", shape)])
     | none => pure (Json.mkObj [("err", .str "UNSUPPORTED"), ("shape", shape)])
 
+/-! ### validator glue -/
+def decodePathJ (j : Json) : Except String (List DictUtils.PathEl) := do
+  match j with
+  | .arr a => a.toList.mapM fun e =>
+      match e with
+      | .str s => pure (DictUtils.PathEl.key (s2l s))
+      | .num n => pure (DictUtils.PathEl.idx n.mantissa)
+      | _ => throw "bad path element"
+  | _ => throw "bad path"
+
+def messagesOp (req : Json) : Except String Json := do
+  let root ← getJ req "root"
+  let paths ← (← getArr req "paths").mapM decodePathJ
+  let one (p : List DictUtils.PathEl) : Json :=
+    match Validator.createMessage root p with
+    | .error e => Json.mkObj [("err", .str e.name)]
+    | .ok m =>
+      match m.pos with
+      | none => Json.mkObj [("key", .str (l2s m.key))]
+      | some (l, c) => Json.mkObj [("key", .str (l2s m.key)), ("line", ofJ l), ("column", ofJ c)]
+  pure (.arr (paths.map one).toArray)
+
 def handle (op : String) (req : Json) : Except String Json := do
   match op with
   | "echo" => pure (ofJ (← getJ req "v"))
@@ -225,6 +248,8 @@ def handle (op : String) (req : Json) : Except String Json := do
   | "findkey" => pure (resJ (DictUtils.findkey (← getBool req "ci") (← getJ req "d") (← decodePath req "path")))
   | "vrun" => vrunOp req
   | "transform" => transformOp req
+  | "messages" => messagesOp req
+  | "lowercase" => pure (ofJ (Validator.convertLowercase (← getJ req "v")))
   | "lower" => pure (Json.str (l2s (lower (← getStr req "s"))))
   | _ => throw s!"unknown op {op}"
 
